@@ -511,8 +511,11 @@ Definition uv_run (fuel : nat) (s : lstate) (beh : nat -> list lop) (mode : nat)
   let '(s1, e0) :=
     if Nat.eqb mode 0 && r && negb (stop_flag s0)
     then l_run_timers (update_time s0) beh else (s0, []) in
+  (* after the initial timer pass: if (loop->stop_flag != 0) r = uv__loop_alive(loop) *)
+  let r1 :=
+    if Nat.eqb mode 0 && r && negb (stop_flag s0) && stop_flag s1 then loop_alive s1 else r in
   let '(s2, e1, r') :=
-    if r && negb (stop_flag s1) then run_loop fuel s1 beh mode else (s1, [], r) in
+    if r1 && negb (stop_flag s1) then run_loop fuel s1 beh mode else (s1, [], r1) in
   (set_stop s2 false, e0 ++ e1 ++ [VRun r']).
 
 (* uv_loop_close *)
